@@ -22,7 +22,12 @@ SPEC = {
     "props": ["props/C07.v"],
     "corr": ["corr/Noise_corr.v"],
     "build_comp": "noise",
-    "comps": [{"comp": "noise_c07", "n_quick": 110, "n_thorough": 4000}],
+    "comps": [{"comp": "noise_c07", "n_quick": 110, "n_thorough": 4000},
+              # the pending handshake of a REAL HandshakeManager: rejected stage-2 packets arrive from a foreign underlay address (or
+              # through a foreign relay) carrying the right initiator index; everything observable about the pending HandshakeHostInfo
+              # (remote, relays, remote list, retry counter, stored packets, index) must be identical before and after each of them, and
+              # the genuine answer must complete towards the genuine address / relay; responder variant: manipulated message 1s
+              {"comp": "noise_mgr07", "n_quick": 80, "n_thorough": 1500}],
     "trusted": ["model/Noise.v is a hand-written mirror of flynn/noise v1.1.0 HandshakeState.ReadMessage/WriteMessage, symmetricState "
                 "(MixHash, MixKey, EncryptAndHash, DecryptAndHash, Split, Checkpoint, Rollback) for the IX pattern without psk",
                 "model/Machine.v is a hand-written mirror of handshake/machine.go (NewMachine, Initiate, ProcessPacket, processPayload, "
